@@ -628,7 +628,17 @@ class ConfigParser(object):
 
     :returns: List of tuples of (SpeciesPair, potential_form_label, params)
       Where params = [p1, p2, ..., pn] and p1 etc are the potential parameters"""
-    return self._parse_params_section(section_name, self._parse_pair_line)
+    pairs = self._parse_params_section(section_name, self._parse_pair_line)
+    # An interaction may only be defined once, whichever way round its species are given
+    # (for [Pair] this has already been checked when the file was read).
+    seen = set()
+    for p in pairs:
+      k = tuple(sorted([p.species.species_a, p.species.species_b]))
+      if k in seen:
+        raise ConfigParserDuplicateEntryException("Multiple entries for the pair {A}-{B} found in [{section_name}] section.".format(
+          A= p.species.species_a, B=p.species.species_b, section_name = section_name))
+      seen.add(k)
+    return pairs
 
   @property
   def pair(self):
